@@ -327,7 +327,7 @@ def check_disjoint(ctx: Ctx, line) -> None:
 
 
 PARTS: list[Part] = [
-    hyp_part("sections", strat_cases, check_case, {"quick": 150, "thorough": 3000},
+    hyp_part("sections", strat_cases, check_case, {"quick": 300, "thorough": 3000},
              {"quick": 8, "thorough": 16}),
     hyp_part("datum", strat_datum, check_datum, {"quick": 500, "thorough": 10000},
              {"quick": 2, "thorough": 16}),
